@@ -67,6 +67,10 @@ func randomEmail(buf []byte) error {
 		tlds = ccTLDs
 	}
 	tld := []byte(tlds[seededRand.Int31n(int32(len(tlds)))])
+	if len(buf) < len(tld) {
+		// No e-mail shape fits into a buffer shorter than the TLD: keep the length, fill it with gibberish.
+		return randomString(buf)
+	}
 	// After we've chosen the TLD, fill the rest of the email with gibberish, and throw @ in there somewhere.
 	nonTLDlen := len(buf) - len(tld)
 	err := randomString(buf[:nonTLDlen])
